@@ -30,6 +30,9 @@ type Out struct {
 	WantSigAlg   string
 	WantC14N     string
 	Hostile      bool
+	// UnsupportedAlg: the configured identifier is unknown to the signing library or belongs to
+	// the other key family; the library then signs with its default, which is what it must declare
+	UnsupportedAlg bool
 }
 
 // mdOf asks the SP for its metadata (guarded).
@@ -66,7 +69,7 @@ func DrawOut(r *core.Run, hostileMode int, needURL bool) *Out {
 		o.EncStyle = world.KeyField
 	}
 	ecSigner := o.SigStyle == world.KeySetter && t.Int(4, "out.ecsigner") == 1
-	algSel := t.Int(5, "out.alg")
+	algSel := t.Int(7, "out.alg") // 0 default, 1-4 supported, 5 unknown identifier, 6 identifier of the other key family
 	canonSel := t.Int(7, "out.canon")
 	hostile := t.Int(2, "out.hostile") == 1
 	switch hostileMode {
@@ -101,9 +104,21 @@ func DrawOut(r *core.Run, hostileMode int, needURL bool) *Out {
 		def = dsig.ECDSASHA256SignatureMethod
 	}
 	o.WantSigAlg = def
-	if algSel > 0 {
+	switch {
+	case algSel >= 1 && algSel <= 4:
 		s.Cfg.SigAlg = algs[algSel-1]
 		o.WantSigAlg = s.Cfg.SigAlg
+	case algSel == 5:
+		// not known to the signing library: it keeps its default, and that is what must be declared
+		s.Cfg.SigAlg = "http://www.w3.org/2001/04/xmldsig-more#rsa-sha224"
+		o.UnsupportedAlg = true
+	case algSel == 6:
+		if world.Key(o.WantSignKey).EC != nil {
+			s.Cfg.SigAlg = dsig.RSASHA512SignatureMethod
+		} else {
+			s.Cfg.SigAlg = dsig.ECDSASHA512SignatureMethod
+		}
+		o.UnsupportedAlg = true
 	}
 	o.AlgName = s.Cfg.SigAlg
 	o.WantC14N = string(dsig.CanonicalXML11AlgorithmId)
@@ -143,6 +158,9 @@ func DrawOut(r *core.Run, hostileMode int, needURL bool) *Out {
 	case 3:
 		s.Cfg.NameIDFormat = saml2.NameIdFormatTransient
 	}
+	bindings := []string{"", saml2.BindingHttpPost, saml2.BindingHttpRedirect}
+	s.Cfg.IdPSSOBinding = bindings[t.Int(3, "out.ssobinding")]
+	s.Cfg.IdPSLOBinding = bindings[t.Int(3, "out.slobinding")]
 	s.Cfg.ForceAuthn = t.Bool("out.forceauthn")
 	s.Cfg.IsPassive = t.Bool("out.ispassive")
 	if t.Bool("out.reqctx") {
